@@ -217,7 +217,7 @@ def r3_plumbing(chk: Check) -> None:
     loop = P.maybe_func(f"{ST_EX}:_execute_state_machine_loop") or P.func(f"{ST_EX}:execute_state_machine_loop")
     runs = [c for c in body_calls(loop) if last_attr(c) == "run" and "StateMachine" in unparse(c.func)]
     v = kwarg(runs[0], "settings") if runs else None
-    chk.decide(v is not None and unparse(v) == "config.execution.hypothesis_settings", "C12.R3", loop, "state machine run(settings=engine settings)", f"the state machine runs with `{unparse(v)}`: step count / max examples are not the configured ones", loop.loc())
+    chk.decide(v is not None and any(x.endswith("engine.config.execution.hypothesis_settings") or x == "config.execution.hypothesis_settings" for x in canon(loop, v)), "C12.R3", loop, "state machine run(settings=engine settings)", f"the state machine runs with `{unparse(v)}`: step count / max examples are not the configured ones", loop.loc())
     ov = P.func(f"{ST_EX}:_get_hypothesis_settings_kwargs_override")
     defaults = set(defined_by(ov, "$v = hypothesis.settings()")) | {"hypothesis.settings.default"}
     user = params_of(ov.node)[0]
